@@ -182,7 +182,26 @@ func kBlock(args []string) (string, string) {
 				break
 			}
 			n := drainOf(len(want))
-			b, rerr := drainN(r, n)
+			// every other drain reads in pieces of exactly the spill threshold (a Read that ends where the part in memory ends),
+			// the others with one buffer for everything
+			var b []byte
+			var rerr error
+			if mem > 0 && n > mem && step%2 == 1 {
+				for len(b) < n && rerr == nil {
+					k := mem
+					if n-len(b) < k {
+						k = n - len(b)
+					}
+					var part []byte
+					part, rerr = drainN(r, k)
+					b = append(b, part...)
+					if len(part) < k {
+						break
+					}
+				}
+			} else {
+				b, rerr = drainN(r, n)
+			}
 			if rerr != nil {
 				res = "readerr"
 				break
